@@ -26,6 +26,94 @@ def searcher(pats, alpha, inferral, symmetry, prefix="", rich=None):
     return s
 
 
+# ------------------------------------------------------------------ the library's example universe with competing rules
+def _example_pack():
+    from comb_spec_searcher import AtomStrategy, StrategyPack
+    from example import AvoidingWithPrefix, ExpansionStrategy, RemoveFrontOfPrefix
+
+    class TwoLetterExpansion(ExpansionStrategy):
+        """W(p) = {p} + sum_a {pa} + sum_{a,b} W(pab): a second decomposition of every class"""
+
+        def decomposition_function(self, comb_class):
+            if comb_class.just_prefix:
+                return None
+            pre, pats, al = comb_class.prefix, comb_class.patterns, comb_class.alphabet
+            kids = [AvoidingWithPrefix(pre, pats, al, True)]
+            for a in al:
+                kids.append(AvoidingWithPrefix(pre + a, pats, al, True))
+                for b in al:
+                    kids.append(AvoidingWithPrefix(pre + a + b, pats, al))
+            return tuple(kids)
+
+        def formal_step(self):
+            return "the prefix, the prefix and one letter, or two more letters"
+
+        def forward_map(self, comb_class, word, children=None):
+            if children is None:
+                children = self.decomposition_function(comb_class)
+            res = [None] * len(children)
+            for i, ch in enumerate(children):
+                if (word == ch.prefix) if ch.just_prefix else word.startswith(ch.prefix):
+                    res[i] = word
+                    break
+            return tuple(res)
+
+        def __repr__(self):
+            return "TwoLetterExpansion()"
+
+    return StrategyPack(initial_strats=[RemoveFrontOfPrefix(ignore_parent=False)], inferral_strats=[],
+                        expansion_strats=[[ExpansionStrategy(), TwoLetterExpansion()]], ver_strats=[AtomStrategy()],
+                        name="words, one or two letters at a time")
+
+
+def example_pair(rnd, out, N):
+    """a pair of searchers over the example's word classes with two competing decompositions per class (the second phase of
+    the finders has to backtrack): a class and its complement image / itself / an unrelated class"""
+    from example import AvoidingWithPrefix
+
+    al = ["0", "1"]
+    p1 = sorted({"".join(rnd.choice(al) for _ in range(rnd.choice([3, 4, 4, 4]))) for _ in range(rnd.choice([1, 2, 2, 2, 2]))})
+    t = str.maketrans("01", "10")
+    p2 = sorted(p.translate(t) for p in p1) if rnd.random() < 0.8 else sorted({"".join(rnd.choice(al) for _ in range(rnd.randint(2, 4)))})
+    for F in (ParallelSpecFinder, EqPathParallelSpecFinder):
+        inp = {"example_universe": True, "patterns1": p1, "patterns2": p2, "finder": F.__name__}
+        s1 = CombinatorialSpecificationSearcher(AvoidingWithPrefix("", p1, al), _example_pack())
+        s2 = CombinatorialSpecificationSearcher(AvoidingWithPrefix("", p2, al), _example_pack())
+        specrun.quiet()
+        out["pairs"] += 1
+        try:
+            r = F(s1, s2).find()
+        except Exception as exc:  # noqa: BLE001
+            specrun.quiet()
+            out["problems"].append(("finder-raises", inp, specrun.exc_info(exc)))
+            continue
+        specrun.quiet()
+        if r is None:
+            continue
+        out["found"] += 1
+        a, b = r
+        try:
+            for which, sp, st in (("first", a, s1), ("second", b, s2)):
+                if sp.root != st.start_class:
+                    out["problems"].append(("returned-specification-has-another-root", inp, which))
+                if [sp.count_objects_of_size(n) for n in range(N)] != [sum(1 for _ in st.start_class.objects_of_size(n)) for n in range(N)]:
+                    out["problems"].append(("returned-specification-miscounts", inp, which))
+            if not Isomorphism.check(a, b):
+                from props import c12
+
+                out["isolines"].append((f"{c12.skeleton(a)} {c12.skeleton(b)}", inp))
+            else:
+                bij = Bijection.construct(a, b)
+                for n in range(N):
+                    dom = sorted(a.root.objects_of_size(n))
+                    img = [bij.map(w) for w in dom]
+                    if sorted(img) != sorted(b.root.objects_of_size(n)) or [bij.inverse_map(v) for v in img] != dom:
+                        out["problems"].append(("returned-pair's-bijection-is-not-one", inp, f"size {n}"))
+                        break
+        except Exception as exc:  # noqa: BLE001
+            out["problems"].append(("returned-pair-unusable", inp, specrun.exc_info(exc)))
+
+
 def worker(args):
     import signal
 
@@ -37,6 +125,9 @@ def worker(args):
     try:
         specrun.quiet()
         for _ in range(count):
+            if rnd.random() < 0.5:
+                example_pair(rnd, out, N)
+                continue
             alpha = rnd.choice(["ab", "ab", "abc"])
             p1 = upword.rand_patterns(rnd, alpha, 3, 3)
             if rnd.random() < 0.2:  # every continuation of one letter forbidden: a rule with several children that sit in other equivalence classes
@@ -133,7 +224,7 @@ def run(tier, seed, factor=1):
                 "class, or unrelated; redundant patterns added so that an inferral strategy applies to a start class; with/without inferral "
                 "and symmetry strategies) x both finder variants; non-trivial = a pair; distinct by seed")
     N = common.scale(tier, 6, 8)
-    jobs = [(seed * 7873 + i, common.scale(tier, 8, 16), N) for i in range(common.scale(tier, 64, 500) * factor)]
+    jobs = [(seed * 7873 + i, common.scale(tier, 10, 16), N) for i in range(common.scale(tier, 160, 600) * factor)]
     outs = specrun.pool_map(worker, jobs)
     specrun.quiet()
     lines = [l for o in outs for l in o["lines"]]
@@ -177,6 +268,23 @@ def replay(case):
     if "patterns1" not in inp:
         return None
     specrun.quiet()
+    if inp.get("example_universe"):
+        from example import AvoidingWithPrefix
+
+        F = ParallelSpecFinder if inp["finder"] == "ParallelSpecFinder" else EqPathParallelSpecFinder
+        try:
+            r = F(CombinatorialSpecificationSearcher(AvoidingWithPrefix("", inp["patterns1"], ["0", "1"]), _example_pack()),
+                  CombinatorialSpecificationSearcher(AvoidingWithPrefix("", inp["patterns2"], ["0", "1"]), _example_pack())).find()
+        except Exception as exc:  # noqa: BLE001
+            return {"signature": "finder-raises", "input": inp, "detail": specrun.exc_info(exc)}
+        specrun.quiet()
+        if r is not None and not Isomorphism.check(*r):
+            from props import c12
+
+            if common.run_driver("IsoRef", f"{c12.skeleton(r[0])} {c12.skeleton(r[1])}\n")[0] != "True":
+                return {"signature": "returned-pair-not-isomorphic", "input": inp,
+                        "detail": "Isomorphism.check and the reference relation isoRef both reject the pair"}
+        return None
     F = ParallelSpecFinder if inp["finder"] == "ParallelSpecFinder" else EqPathParallelSpecFinder
     s1 = searcher(inp["patterns1"], inp["alphabet"], inp["inferral"], inp["symmetry"], inp.get("prefix1", ""), inp.get("rich"))
     s2 = searcher(inp["patterns2"], inp["alphabet"], inp["inferral"], inp["symmetry"], inp.get("prefix2", ""), inp.get("rich"))
